@@ -8,6 +8,7 @@ import (
 )
 
 var registry = map[string]func(*checks.Run) int{
+	"C05": checks.CheckC05,
 	"C06": checks.CheckC06,
 	"C07": checks.CheckC07,
 	"C08": checks.CheckC08,
